@@ -284,7 +284,7 @@ def make_judge(chk: Check):
                     viols.append(Viol("marker-missing", f"{kindlabel}:{mk}", {"file": rel, "decl": d.path(), "expected": sorted(exp), "found": sorted(got)}))
                 for mk in extra:
                     viols.append(Viol("marker-without-cause", f"{kindlabel}:{mk}", {"file": rel, "decl": d.path(), "expected": sorted(exp), "found": sorted(got)}))
-                chk.case_ok(f"{kindlabel}:{'+'.join(sorted(exp)) or 'none'}")
+                chk.case_ok(f"{kindlabel}:{'+'.join(sorted(exp)) or 'none'}", ident=(case.cid, m.py_module, d.path()))
                 if len(exp) >= 3:
                     chk.sample({"decl": d.path(), "expected_markers": sorted(exp), "found": got_txt}, limit=3)
         return viols
